@@ -115,4 +115,25 @@ CASES = [
       _remove_file(removed_file);""", """      fs::path const oldest = _get_filename(
         _created_files.back().base_filename, _created_files.back().index, _created_files.back().date_time);
       _remove_file(oldest);""")]),
+
+ dict(name="b-c04-vector-operands-swapped", ids=["C04", "C11"], subs=[("std/Vector.h", "      total_size += sizeof(T) * arg.size();", "      total_size += arg.size() * sizeof(T);"),
+      ("std/Vector.h", "      std::memcpy(buffer, arg.data(), sizeof(T) * arg.size());\n      buffer += sizeof(T) * arg.size();", "      size_t const nbytes = arg.size() * sizeof(T);\n      std::memcpy(buffer, arg.data(), nbytes);\n      buffer += nbytes;")]),
+ dict(name="b-c04-string-len-hoisted", ids=["C04"], subs=[("core/Codec.h", "      return sizeof(uint32_t) + static_cast<uint32_t>(arg.length());", "      auto const len = static_cast<uint32_t>(arg.size());\n      return len + sizeof(uint32_t);")]),
+ dict(name="b-c04-pair-size-single-expression", ids=["C04"], subs=[("std/Pair.h", """    size_t total_size = Codec<T1>::compute_encoded_size(conditional_arg_size_cache, arg.first);
+    total_size += Codec<T2>::compute_encoded_size(conditional_arg_size_cache, arg.second);
+    return total_size;""", """    size_t const first_size = Codec<T1>::compute_encoded_size(conditional_arg_size_cache, arg.first);
+    size_t const second_size = Codec<T2>::compute_encoded_size(conditional_arg_size_cache, arg.second);
+    return first_size + second_size;""")]),
+ dict(name="b-c04-optional-decode-ternary-free", ids=["C04"], subs=[("std/Optional.h", """      bool const has_value = Codec<bool>::decode_arg(buffer);
+      if (has_value)
+      {
+        arg = Codec<T>::decode_arg(buffer);
+      }
+
+      return arg;""", """      if (Codec<bool>::decode_arg(buffer))
+      {
+        arg = Codec<T>::decode_arg(buffer);
+      }
+
+      return arg;""")]),
 ]
